@@ -24,6 +24,10 @@ ASSUMPTIONS = ["minimality of the result is not asserted (the statement does not
 
 def _render(pair, cls, platform, style):
     b, w = pair
+    if style >= 10 and w not in (0, R.ALL1):
+        # slash and dotted mask: subnet mask (even styles) or host mask (odd styles)
+        return f"{R.int2ip(b)}/{R.int2ip(w if style % 2 else ~w & R.ALL1)}"
+    style = style % 10
     if cls == "AddressAg":
         return member_text((b, w), platform, style)
     if w == 0:
@@ -42,6 +46,8 @@ def judge(case) -> Verdict:
     if cls_name not in ("Address", "AddressAg") or platform not in ("ios", "nxos") or not case["nets"]:
         raise Invalid()
     cls = Address if cls_name == "Address" else AddressAg
+    if case.get("subclass"):
+        cls = type("Site" + cls_name, (cls,), {})  # a caller's own subclass: results are of the same kind
     fn = address_mod.collapse if cls_name == "Address" else address_ag_mod.collapse
     pairs = []
     for b, w in case["nets"]:
@@ -226,8 +232,9 @@ def case_st(draw, tier):
             nets.remove([x, w])
             nets.append([x, w])
     case = {"cls": cls, "platform": platform, "nets": nets,
-            "styles": draw(st.lists(st.integers(0, 9), min_size=1, max_size=4))}
+            "styles": draw(st.lists(st.one_of(st.integers(0, 9), st.integers(0, 9), st.integers(0, 13)), min_size=1, max_size=4))}
     case["container"] = draw(st.sampled_from(["list", "list", "tuple", "iter", "generator"]))
+    case["subclass"] = draw(st.sampled_from([False, False, False, False, True]))
     if draw(st.sampled_from(range(5))) == 0:
         case["spoil"] = draw(st.sampled_from(["note", "line"]))
     elif draw(st.sampled_from([True, False, False])):
